@@ -9,8 +9,9 @@ from .fieldops import check_op, MachineryError
 QUICK = ["gf25519", "gf255e", "gfsecp256k1", "gf448", "gfp256", "sc25519", "sc448"]
 # obligations that do not close within the tier budget on the unchanged tree
 # (measured; see DESIGN.md section 8) -- not posed, listed as outside the claim
-DEFER = {("gfp256", "mul"), ("gfp256", "square"), ("sc25519", "square"), ("sc25519", "xsquare2"),
-         ("sc448", "square"), ("sc448", "mul_small"), ("gfp256", "xsquare2")}
+_MONTY = ["gfp256", "sc25519", "scp256", "scsecp256k1", "scjq255e", "scjq255s", "scgls254", "sc448"]
+DEFER = set([(t, "square") for t in _MONTY] + [(t, "xsquare2") for t in _MONTY if t != "sc448"]
+            + [("gfp256", "mul"), ("scp256", "mul"), ("sc448", "mul_small")])
 
 
 def drivers_for(fields):
